@@ -1352,9 +1352,6 @@ impl<'a> Parser<'a> {
       return self.error_current(&format!("Expected '(' after {} name.", self.fun_kind));
     }
 
-    let loop_depth = self.loop_depth;
-    self.loop_depth = 0;
-
     // parse function parameters
     let call_params = self.call_params(TokenKind::RightParen)?;
     let call_sig = self.call_signature(call_params, type_params)?;
@@ -1362,6 +1359,10 @@ impl<'a> Parser<'a> {
     if !self.match_kind(TokenKind::LeftBrace)? {
       return self.error_current(&format!("Expected '{{' after {} signature.", self.fun_kind));
     }
+
+    // a loop around the function is not a loop of the function. The depth
+    // is swapped around the body only, no error path leaves with it
+    let loop_depth = mem::replace(&mut self.loop_depth, 0);
 
     let fun = self.block(block_return).map(|body| {
       Fun::new(
